@@ -852,7 +852,7 @@ def run(check):
     quick = check.tier == 'quick'
     check.regen(['pipeline'])
     check.check_sources()
-    check.prove('Props.C14', THEOREMS)
+    check.prove('Props.C14', THEOREMS, targets=['Props/C14.vo', 'C14/Corr.vo'])
     cases = []
     try:
         dc = dense_cases()
